@@ -24,6 +24,19 @@ fn c06_compute_distance() {
     kani::cover!(true, "end of harness reached");
 }
 
+/// The same facts for widths up to 256 columns (thorough tier).
+#[kani::proof]
+fn c06_compute_distance_256() {
+    let (n, d): (usize, usize) = (kani::any(), kani::any());
+    kani::assume(d <= 256 && n <= d);
+    let r = compute_distance(n as f64, d as f64);
+    assert!(r >= 0.0 && r <= 1.0, "normalised distance lies in [0, 1]");
+    assert!((r == 0.0) == (n == 0), "distance is 0 exactly when no changed token was counted");
+    assert!((r == 1.0) == (n == d && d > 0), "distance is 1 exactly when everything changed");
+    kani::cover!(n == 1 && d == 256, "one column out of 256");
+    kani::cover!(true, "end of harness reached");
+}
+
 /// Monotonicity used by the threshold test `distance <= max_line_distance`: more changed width
 /// out of the same total never gives a smaller distance.
 #[kani::proof]
